@@ -201,6 +201,17 @@ func TestC18(t *testing.T) {
 			signed = tree[si.Container.Files[fi].Path].Data
 			written, mdesc = Bytes(12345, len(signed)), "every block replaced (same length)"
 		}
+		// "flip and keep going": one block in the middle is wrong, every Write is exactly one block
+		// and the caller does not stop at the first error (error mode, plain writes)
+		flipKeep := false
+		if sbl := blocksOf(signed); spill < 0 && !bigCase && len(sbl) >= 3 && rapid.IntRange(0, 11).Draw(rt, "flipkeep") == 0 {
+			flipKeep = true
+			k := rapid.IntRange(0, len(sbl)-2).Draw(rt, "flipkeepblock")
+			w := append([]byte{}, signed...)
+			w[k*BlockSize+rapid.IntRange(0, BlockSize-1).Draw(rt, "flipkeepoff")] ^= 0x21
+			written, mdesc = w, fmt.Sprintf("one byte of block %d flipped, the caller keeps writing block by block", k)
+			Ev.Probe("one_bad_block_then_good_ones_written_block_by_block_after_the_error")
+		}
 		slice := drawSlicer(rt, "wslice")
 		if slice != nil && rapid.Bool().Draw(rt, "bigslices") {
 			slice.Edge = BlockSize
@@ -210,6 +221,9 @@ func TestC18(t *testing.T) {
 		// "tail only": what is written is the short last block of the signed file and nothing else
 		// (every byte of it is signed content, one or more positions too early); error mode, plain
 		// writes, and the writer is closed twice
+		if flipKeep {
+			mode = 0
+		}
 		tailOnly := false
 		if sbl := blocksOf(signed); spill < 0 && !bigCase && len(sbl) >= 2 && len(sbl[len(sbl)-1]) < BlockSize && rapid.IntRange(0, 11).Draw(rt, "tailonly") == 0 {
 			tailOnly = true
@@ -231,7 +245,7 @@ func TestC18(t *testing.T) {
 		setup := fmt.Sprintf("signed %d B (%d blocks), written %d B: %s; slicing %s; mode %d; first differing block %d", len(signed), len(sb), len(written), mdesc, slicerDesc(slice), mode, firstBad)
 
 		keepWriting := rapid.Bool().Draw(rt, "keepwriting")
-		if !tailOnly && mode == 0 && nfiles >= 2 && rapid.IntRange(0, 3).Draw(rt, "twowriters") == 0 {
+		if !tailOnly && !flipKeep && mode == 0 && nfiles >= 2 && rapid.IntRange(0, 3).Draw(rt, "twowriters") == 0 {
 			// two writers of the same pool open at once (lake.WritablePool allows it), fed alternately
 			// with the signed content of their files: both must pass intact
 			vp := &pwr.ValidatingPool{Pool: inner, Container: si.Container, Signature: si}
@@ -324,7 +338,7 @@ func TestC18(t *testing.T) {
 			})
 			return
 		}
-		if !tailOnly && mode == 0 && rapid.IntRange(0, 3).Draw(rt, "viacopy") == 0 {
+		if !tailOnly && !flipKeep && mode == 0 && rapid.IntRange(0, 3).Draw(rt, "viacopy") == 0 {
 			// the data is fed with io.Copy from a reader (which uses the writer's ReadFrom if it has
 			// one) that may return short reads and its last bytes together with io.EOF
 			vp := &pwr.ValidatingPool{Pool: inner, Container: si.Container, Signature: si}
@@ -369,12 +383,23 @@ func TestC18(t *testing.T) {
 			}
 			off, failedAt, calls := 0, -1, 0
 			var failErr error
+			// (sometimes every Write is exactly one block, or two: each call then starts on a block
+			// boundary with nothing buffered, and a refused block is the last one of its call)
+			wholeBlocks := 0
+			if rapid.IntRange(0, 5).Draw(rt, "wholeblockwrites") == 0 {
+				wholeBlocks = rapid.IntRange(1, 2).Draw(rt, "wholeblocksper")
+			}
+			if flipKeep {
+				wholeBlocks, keepWriting = 1, true
+			}
 			for off < len(written) {
 				n := len(written) - off
 				if n > 3*BlockSize {
 					n = 3 * BlockSize
 				}
-				if slice != nil {
+				if wholeBlocks > 0 {
+					n = min(n, wholeBlocks*BlockSize)
+				} else if slice != nil {
 					n = slice.Next(n)
 				}
 				calls++
@@ -389,7 +414,9 @@ func TestC18(t *testing.T) {
 							if n2 > 3*BlockSize {
 								n2 = 3 * BlockSize
 							}
-							if slice != nil {
+							if wholeBlocks > 0 {
+								n2 = min(n2, wholeBlocks*BlockSize)
+							} else if slice != nil {
 								n2 = slice.Next(n2)
 							}
 							w.Write(written[o2 : o2+n2])
